@@ -11,7 +11,7 @@ import os
 from ..facts import AnalysisBroken, short
 from ..paths import path, pstr
 from ..effects import writes
-from ..moves import MoveAnalysis
+from ..moves import MoveAnalysis, vtag
 from .. import witness, extract
 
 EXPLANATION = ('C20: unsequenced read/consume pairs over every library function instantiation, uninitialised-member analysis over every '
@@ -23,6 +23,7 @@ UNITS = None
 
 def check(ctx):
     ctx.rule('C20.U', 'no read and consume of one object in unsequenced operands')
+    ctx.rule('C20.V', 'no object is used after it was moved from')
     ctx.rule('C20.I', 'constructors leave no scalar member indeterminate')
     ctx.rule('C20.M', 'witness units type-check with g++ and clang++')
     ctx.rule('C20.P', 'SingleThreading policy matches the std::atomic / mutex interface conventions')
@@ -34,10 +35,17 @@ def check(ctx):
             if pairs:
                 nfun += 1
                 bad = [v for v in vs if v['kind'] == 'unsequenced']
-                names = sorted({v['site']['name'] for v in bad})
+                names = sorted({vtag(v) for v in bad})
                 ctx.ob('C20.U', f, 'no variable is both read and moved-from in unsequenced operands', not bad,
                        detail='\n'.join(v['msg'] for v in bad[:3]), key_detail='unsequenced ' + ','.join(names),
                        where=f.nloc(bad[0]['site']['consumer']) if bad else None)
+                # sequenced use of a moved-from object: its state is "valid but unspecified" for standard types (and empty for the
+                # smart pointers the library uses as handles), so whatever is computed from it is not what the caller supplied
+                later = [v for v in vs if v['kind'] != 'unsequenced']
+                names = sorted({vtag(v) for v in later})
+                ctx.ob('C20.V', f, 'no object is used after it was moved from (loops, captured references and caller-owned lvalues included)',
+                       not later, detail='\n'.join(v['msg'] for v in later[:3]), key_detail='moved-from ' + ','.join(names),
+                       where=f.nloc(later[0]['site']['consumer']) if later else None)
         check_init(ctx, tu)
         check_policy(ctx, tu)
     ctx.require(nfun >= 20, 'C20.U: fewer than 20 functions with consuming sites were analysed (%d)' % nfun)
